@@ -204,3 +204,25 @@ pub fn contract_spec_rd_bound(y: i32, m: u32, d: u32, r: i64) -> bool {
         && (a < 1 || rel >= 365 * (a - 1) - 1)
         && (a > 0 || rel <= 365 * (a - 1) + 335)
 }
+
+/// contract of year_doy_to_days for the years strictly inside the range (C18; shown by c18_year_doy_contract_holds): Ok exactly for
+/// a day of year the year has, and then January 1 plus the days before it (plus the leap day Julian rule days skip over)
+pub fn contract_year_doy_to_days(y: i32, doy: u32, ign: u8, is_ok: bool, k: i32) -> bool {
+    if !(MIN_Y < y && y < MAX_Y) || y == 0 { return true; }
+    let ok = 1 <= doy && doy as i64 <= spec_ylen(y);
+    let adj: i64 = if ign != 0 && spec_is_leap(y) && doy >= 60 { 1 } else { 0 };
+    is_ok == ok && (!ok || k as i64 == spec_rd(y, 1, 1) + doy as i64 - 1 + adj)
+}
+/// contract of is_leap_year (shown by c18_is_leap_contract_holds)
+pub fn contract_is_leap_year(y: i32, l: bool) -> bool {
+    y == 0 || l == spec_is_leap(y)
+}
+/// first day of a month relative to January 1 (oracle_rd_month_lemma_holds proves it of the closed forms; instantiated where
+/// spec_rd and spec_is_leap are taken as uninterpreted)
+pub fn lemma_rd_month(y: i32, m: u32) -> bool {
+    spec_rd(y, m, 1) == spec_rd(y, 1, 1) + spec_cum(m) + if m > 2 && spec_is_leap(y) { 1 } else { 0 }
+}
+/// January 1 of a year strictly inside the range lies well inside the day range (oracle_rd_inner_lemma_holds)
+pub fn lemma_rd_inner(y: i32) -> bool {
+    !(MIN_Y < y && y < MAX_Y && y != 0) || (spec_rd(y, 1, 1) >= i32::MIN as i64 + 150 && spec_rd(y, 1, 1) + 366 <= i32::MAX as i64 - 150)
+}
